@@ -7,16 +7,18 @@ import Fbr.Lemmas.OvlSim
 import Fbr.Lemmas.OvlSimRO
 import Fbr.Lemmas.OvlOps
 import Fbr.Lemmas.OvlCreate
+import Fbr.Lemmas.OvlRm
 
 namespace Fbr.Ovl
 
 /-! ### whole operations -/
 
 /-- the operations whose effect on the cache invariant is proved: every non-modifying one, the
-    six that copy up and change attributes, and the four that create an entry -/
+    six that copy up and change attributes, the four that create an entry, and unlink
+    (everything except link and rmdir) -/
 def Op.covered : Op → Bool
   | .open .. | .write .. | .chmod .. | .truncate .. | .setx .. | .rmx .. => true
-  | .create .. | .mkdir .. | .mknod .. | .symlink .. => true
+  | .create .. | .mkdir .. | .mknod .. | .symlink .. | .unlink .. => true
   | op => !op.isModifying
 
 theorem runOp_cons (op : Op) (h : op.covered = true) : Triple Consistent (runOp op) (fun _ => Consistent) Consistent := by
@@ -74,7 +76,7 @@ theorem runOp_cons (op : Op) (h : op.covered = true) : Triple Consistent (runOp 
   | mknod p mode => exact runOp_mknod_cons p mode
   | symlink p t => exact runOp_symlink_cons p t
   | link src dst => simp [Op.covered, Op.isModifying] at h
-  | unlink p => simp [Op.covered, Op.isModifying] at h
+  | unlink p => exact runOp_unlink_cons p
   | rmdir p => simp [Op.covered, Op.isModifying] at h
 
 theorem run_cons (ops : List Op) (hops : ∀ op ∈ ops, op.covered = true) :
